@@ -27,8 +27,8 @@ RULE = ("case = (method class, constraint set, speculative, split, first request
 ASSUMPTIONS = ["points of the pool are identical or separated by much more than the plug-in's allclose tolerance", "the scripted algorithm calls the callables the way SciPy does (1-D points; (V,S) batches for vectorized DE)"]
 EXHAUSTIVE = {"quick": True, "thorough": True}
 BOUNDS = {"quick": {"script_length": 3}, "thorough": {"script_length": 4}}
-REQUIRED = {"quick": {"scripts": 20000, "values_compared": 60000, "epochs_checked": 40000, "speculative_pairs_compared": 5000, "constraint_first_at_new_point": 3000, "gradient_first_at_new_point": 3000, "batch_requests": 1000, "batch_requests_in_reused_buffer": 600, "scripts_with_reused_point_array": 10000, "scripts_over_close_points_with_tolerance_option": 600, "scripts_over_points_with_large_coordinates_of_either_sign": 180, "real_method_runs": 36, "__nontrivial__": 150},
-            "thorough": {"scripts": 600000, "values_compared": 2000000, "epochs_checked": 1500000, "speculative_pairs_compared": 150000, "constraint_first_at_new_point": 100000, "gradient_first_at_new_point": 100000, "batch_requests": 30000, "batch_requests_in_reused_buffer": 20000, "scripts_with_reused_point_array": 300000, "scripts_over_close_points_with_tolerance_option": 15000, "scripts_over_points_with_large_coordinates_of_either_sign": 4000, "real_method_runs": 600, "__nontrivial__": 1500}}
+REQUIRED = {"quick": {"scripts": 20000, "values_compared": 60000, "epochs_checked": 40000, "speculative_pairs_compared": 5000, "constraint_first_at_new_point": 3000, "gradient_first_at_new_point": 3000, "batch_requests": 1000, "batch_requests_in_reused_buffer": 600, "scripts_with_reused_point_array": 10000, "scripts_over_close_points_with_tolerance_option": 600, "scripts_over_points_with_large_coordinates_of_either_sign": 180, "scripts_with_all_failed_evaluations": 100, "real_method_runs": 36, "__nontrivial__": 150},
+            "thorough": {"scripts": 600000, "values_compared": 2000000, "epochs_checked": 1500000, "speculative_pairs_compared": 150000, "constraint_first_at_new_point": 100000, "gradient_first_at_new_point": 100000, "batch_requests": 30000, "batch_requests_in_reused_buffer": 20000, "scripts_with_reused_point_array": 300000, "scripts_over_close_points_with_tolerance_option": 15000, "scripts_over_points_with_large_coordinates_of_either_sign": 4000, "scripts_with_all_failed_evaluations": 2500, "real_method_runs": 600, "__nontrivial__": 1500}}
 
 V = 2
 FAR_POOL = np.array([[0.1, -0.2], [0.35, 0.15], [-0.3, 0.4]])
@@ -240,7 +240,7 @@ def _play(obs, cls, spec, script, reqs, record_only=False):
                     got, want = cons[k]["jac"](x), rows[k][1]
             got = np.asarray(got, dtype=np.float64)
             out.append(got.copy())
-            if record_only:
+            if record_only or spec.get("_all_failed"):
                 continue
             obs.count("values_compared")
             if got.shape != np.shape(want) and got.size != np.size(want):
@@ -321,6 +321,13 @@ def run_case(case, obs):
             spec = _spec(cls, cons, speculative, split)
             if tol is not None:
                 spec["optimizer"]["tolerance"] = tol
+            if cls in ("de", "de_vec") and rng.random() < 0.5:
+                # every realization fails everywhere (tolerated with a threshold of zero by this NaN-tolerant method): the values
+                # handed over are not judged, the evaluation counts are - an undefined value is a computed value as well
+                spec["rmin"] = 0
+                spec["nan"] = [{"call": None, "r": r, "p": -1, "col": 0} for r in range(spec["R"])]
+                spec["_all_failed"] = True
+                obs.count("scripts_with_all_failed_evaluations", 40)
             reqs = [(k, p) for k in _alphabet(cls, spec) for p in range(3)]
             scripts = [[int(x) for x in rng.integers(len(reqs), size=int(rng.integers(5, 9)))] for _ in range(40)]
             return _run_scripts(case, obs, cls, cons, speculative, split, spec, reqs, scripts, tol)
@@ -348,7 +355,7 @@ def _run_scripts(case, obs, cls, cons, speculative, split, spec, reqs, scripts, 
         if len({reqs[i][1] for i in script}) > 1 or len({str(reqs[i][0]) for i in script}) > 1:
             nontrivial = True
         # speculative changes only how many evaluations happen, never the values returned
-        if speculative:
+        if speculative and not spec.get("_all_failed"):
             b = _play(obs, cls, other, script, reqs, record_only=True)
             if b is not None:
                 obs.count("speculative_pairs_compared")
